@@ -888,6 +888,8 @@ class Exec(ExprMixin, CallMixin):
                 return False
             if v.kind == "str":
                 return self.branch(z3.Length(v.val) > 0)
+            if v.kind == "int":
+                return self.branch(v.val != 0)
             return True
         if isinstance(v, (AList, SliceView)):
             return self.branch(v.n > 0)
